@@ -20,6 +20,8 @@ import sys
 import tempfile
 import time
 
+from vlib.env import real_monotonic
+
 from . import env
 
 VERIF = env.VERIF
@@ -108,13 +110,13 @@ def run_shards(check_id, shards, jobs, shard_timeout, mem_gb=3.0):
                     json.dump(dict(shards[nxt], _soft=0.45 * shard_timeout), fh)
                 p = subprocess.Popen([PY, '-m', 'vlib.worker', check_id, sf, of], cwd=VERIF, env=envv,
                                      stdout=open(ef, 'w'), stderr=subprocess.STDOUT, preexec_fn=_limits(mem_gb))
-                running[nxt] = (p, time.monotonic(), of, ef)
+                running[nxt] = (p, real_monotonic(), of, ef)
                 nxt += 1
             done = []
             for i, (p, t0, of, ef) in running.items():
                 rc = p.poll()
                 if rc is None:
-                    if time.monotonic() - t0 > shard_timeout:
+                    if real_monotonic() - t0 > shard_timeout:
                         p.kill()
                         p.wait()
                         results[i] = {'_failed': 'shard %d: watchdog after %ds (inconclusive)' % (i, shard_timeout)}
@@ -161,7 +163,7 @@ def main(argv=None):
     sys.path.insert(0, VERIF)
     ensure_deps()
     mod = importlib.import_module('checks.%s' % cid.lower())
-    t0 = time.monotonic()
+    t0 = real_monotonic()
     if a.replay:
         with open(a.replay) as fh:
             rep = json.load(fh)
@@ -229,7 +231,7 @@ def main(argv=None):
             unmet.append('%d shard worker(s) crashed: %s' % (len(crashed), crashed[0][-300:].replace('\n', ' | ')))
         if m['shards_failed'] * 8 > m['shards']:
             unmet.append('%d of %d shards failed' % (m['shards_failed'], m['shards']))
-    wall = time.monotonic() - t0
+    wall = real_monotonic() - t0
     distinct = len(m['distinct'])
     cov = dict(evaluations=m['evaluations'], distinct_nontrivial=distinct, rule=mod.RULE,
                samples=m['samples'][:MAX_SAMPLES], counters=m['counters'], maxima=m['maxima'],
